@@ -106,6 +106,19 @@ class BaseFiles(Generic[Interface]):
 
         return int(last_modified) <= int(modified_time)
 
+    def not_modified(
+        self, stat_result: os.stat_result, if_none_match: str, if_modified_since: str
+    ) -> bool:
+        from .responses import FileResponseMixin
+
+        if if_none_match:
+            # A recipient must ignore If-Modified-Since when the request
+            # carries If-None-Match (RFC 7232 section 3.3).
+            return self.if_none_match(
+                FileResponseMixin.generate_etag(stat_result), if_none_match
+            )
+        return self.if_modified_since(stat_result.st_ctime, if_modified_since)
+
     def set_response_headers(self, response: BaseResponse) -> None:
         response.headers.append(
             "Cache-Control", f"{self.cacheability}, max-age={self.max_age}"
